@@ -153,6 +153,27 @@ CHECKS = {
             'Trusted: relmodel.Ref.load (the definition of loading). Two recorded findings (F-C03a/b) concern the API route on '
             'associations with differing phrases; they cannot be repaired without failing six repository tests.',
             'DESIGN.md section 5, C03; section 6'),
+    'C16': ('enumerator',
+            'bounded exhaustive enumeration of arrangements (partial injective successor maps = all chain/ring arrangements and creation orders) x every ordered subset x both phrases on the real sort_reflexive',
+            'Every arrangement of up to 5 (thorough 6, and 7 for chain-only worlds and full rings) instances into chains and '
+            'rings with every creation order, every ordered subset of the instances as the input set, both phrases, plus a '
+            'second reflexive association as a distractor: for sets made of whole chains, a single whole ring or nothing the '
+            'full oracle (every member once, chains contiguous from the member without partner across the phrase along the '
+            'opposite phrase, reverse for the other phrase, ring once around from the sets first member, empty result) applies; '
+            'for every other set termination within 1 s (three attempts), no repeats and nothing outside the set.',
+            'Trusted: the plain-python successor-map reference. The relative order of different chains is not claimed.',
+            'DESIGN.md section 5, C16'),
+    'C19': ('explorer',
+            'bounded exhaustive enumeration of schemas x creation-call shapes x generators, plus explicit-state BFS to closure over peek/next/new histories',
+            'All attribute-type lists of length <= 3 (thorough 4, reduced) over the five core types in several spellings, with a '
+            'referential attribute or an unknown type at every position, every split of the attributes into positional prefix / '
+            'keyword / omitted incl. keyword and positional for the same attribute, three generators and three creation routes: '
+            'defaults by value and type, positional-then-keyword application, ids from the generator, non-null, never repeated, '
+            'unknown type rejected with a MetaException. Histories: breadth-first search to closure (counter cap 6/9) over peek, '
+            'next(), next(gen) and new on classes with 0-2 id attributes for IntegerGenerator, UUIDGenerator, the default '
+            'generator and user subclasses; all interleavings of two live generators.',
+            'Trusted: the counter reference. For UUID generators only non-null, distinct, fresh and consistent-with-peek are checked.',
+            'DESIGN.md section 5, C19'),
 }
 
 NOT_YET = 'check not built yet in this revision (planned, see DESIGN.md section 5); not claimed until it exists'
